@@ -9,6 +9,9 @@ the pathspecs as entirely unstaged.  The model (Model/SplitCarry.v) needs exactl
   pathspecs_only_grow         nothing removes entries from `pathspecs` in post_commit
   split_gets_pathspecs        the split is called with Some(&pathspecs)
   untracked_whole_file        an untracked pathspec file becomes Range(1, line_count) / one hunk (0,1,line_count)
+  precommit_runs_on_any_initial  the pre-commit checkpoint's early exit tests "INITIAL names no file at all"
+                              (has_initial_attributions = !read_initial_attributions().files.is_empty()),
+                              whatever the working log already contains
   translation_by_hunk_spans   the split translates work-tree lines with workdir_to_commit_line over the
                               hunk extents and filters with replaced_commit_line (the form Model/Split.v
                               describes; the earlier count-of-unstaged-lines form is a GenError)
@@ -117,7 +120,21 @@ def generate(L):
     if "&&letSome(span)=parse_hunk_header_counts(line){hunks.entry(file.clone()).or_default().push(span);}" not in hs:
         raise L.GenError("parse_diff_hunk_spans: shape changed")
 
+    # the pre-commit checkpoint's early exit: it must run whenever INITIAL names any file
+    rel4 = "src/commands/checkpoint.rs"
+    run = re.sub(r"\s+", "", L.find_fn(L.read_src(rel4), "run", rel4))
+    m = re.search(r"lethas_initial_attributions=(.*?);", run)
+    if not m:
+        raise L.GenError("checkpoint run(): has_initial_attributions not found")
+    initial_any = m.group(1) == "!working_log.read_initial_attributions().files.is_empty()"
+    skip = "ifhas_no_ai_edits&&!has_initial_attributions&&!Config::get().get_feature_flags().inter_commit_move{"
+    if skip not in run:
+        raise L.GenError("checkpoint run(): pre-commit early-exit condition changed")
+    if "ifis_pre_commit{lethas_no_ai_edits=working_log.all_ai_touched_files().map(|files|files.is_empty()).unwrap_or(true);" not in run:
+        raise L.GenError("checkpoint run(): has_no_ai_edits changed")
+
     return "\n".join([
+        "Definition precommit_runs_on_any_initial : bool := " + L.coq_bool(initial_any) + ".",
         "Definition translation_by_hunk_spans : bool := true.",
         "Definition initial_loop_unconditional : bool := " + L.coq_bool(unconditional) + ".",
         "Definition pathspecs_only_grow : bool := " + L.coq_bool(only_grow) + ".",
